@@ -201,3 +201,21 @@ Theorem C11_assertion_target_right : forall a b pos,
   0 <= pos -> target (imerge a b) (pos + ilen a) = target b pos.
 Proof. exact target_imerge_right. Qed.
 Print Assumptions C11_assertion_target_right.
+
+(* ---------- execution counts are additive for ALL traces, equal ones included ---------- *)
+Theorem C11_counts_additive : forall a b k, trace_wf b = true ->
+  count_of (merge a b) k = count_of a k + count_of b k.
+Proof. exact count_of_merge. Qed.
+Print Assumptions C11_counts_additive.
+
+(* a trace merged with an equal trace is not dropped: every count doubles *)
+Theorem C11_counts_merge_equal_traces : forall a k, trace_wf a = true ->
+  count_of (merge a a) k = 2 * count_of a k.
+Proof. exact count_of_merge_self. Qed.
+Print Assumptions C11_counts_merge_equal_traces.
+
+(* analyze_results: merged count = sum over all results (duplicates counted as often as they occur) *)
+Theorem C11_analyze_results_counts_sum : forall ts k,
+  Forall (fun t => trace_wf t = true) ts -> count_of (merge_all ts) k = total_count ts k.
+Proof. exact count_of_merge_all. Qed.
+Print Assumptions C11_analyze_results_counts_sum.
